@@ -5,7 +5,7 @@
    then the composed ante handler of app/antedl/ante.go) for disabled-message table [tbl], mode [m],
    environment [e] (SDK verdicts, proof store: universally quantified) and transaction shape [sh].
    [accepted ... = true] iff the transaction reaches message execution. *)
-From Evm Require Import Lane LaneProofs.
+From Evm Require Import Lane LaneProofs LaneWire LaneWireProofs.
 Open Scope Z_scope.
 
 (* Every transaction is handled by exactly one lane: every decorator of the chain decides with the same
@@ -50,6 +50,40 @@ Theorem C07_eth_accept_any_mode : forall tbl m e sh,
             (m <> MReCheck -> d03_eth_checks sh p = None).
 Proof. exact eth_accept_any_mode. Qed.
 Print Assumptions C07_eth_accept_any_mode.
+
+(* The same statements about the VALUES on the wire (Model/LaneWire.v: [abstract max_memo height w] is the shape of the
+   envelope w - signatures and signer infos as lists, payer / granter / memo as byte strings (by length), timeout height
+   and gas limit as uint64, the fee as a coin list - read at block height [height] under the auth parameter
+   MaxMemoCharacters = [max_memo]; the correspondence checker recomputes every generated transaction's shape with it).
+   For every height and every memo bound: an accepted transaction listing an Ethereum message has NO signature entry (not
+   even an empty byte string), no signer info (with or without key), payer and granter of zero bytes, a memo of zero
+   bytes (whitespace is a memo), timeout height exactly 0 (no other uint64, on either side of 2^63 or of the current
+   height), and fee / gas limit equal to the embedded transaction's as numbers and as denominations. *)
+Theorem C07_eth_accept_wire_values : forall tbl m e max_memo height w,
+  m <> MReCheck -> accepted tbl m e (abstract max_memo height w) = true -> existsb is_eth (w_msgs w) = true ->
+  exists p, eth_wire_ok w p /\ e_basic_ok p = true /\ e_protected p = true.
+Proof. exact eth_accept_wire. Qed.
+Print Assumptions C07_eth_accept_wire_values.
+
+Theorem C07_eth_accept_wire_values_recheck : forall tbl e e0 max_memo height height0 w,
+  accepted tbl MCheck e0 (abstract max_memo height0 w) = true ->
+  accepted tbl MReCheck e (abstract max_memo height w) = true -> existsb is_eth (w_msgs w) = true ->
+  exists p, eth_wire_ok w p /\ e_basic_ok p = true /\ e_protected p = true.
+Proof. exact eth_accept_wire_recheck. Qed.
+Print Assumptions C07_eth_accept_wire_values_recheck.
+
+Theorem C07_eth_accept_wire_any_mode : forall tbl m e max_memo height w,
+  accepted tbl m e (abstract max_memo height w) = true -> existsb is_eth (w_msgs w) = true ->
+  exists p, w_msgs w = [MEth p] /\ v_memo (w_vals w) = 0 /\ v_timeout (w_vals w) = 0 /\
+            w_noncrit w = [] /\ (w_ext w = [] \/ w_ext w = [XEth]).
+Proof. exact eth_accept_wire_any_mode. Qed.
+Print Assumptions C07_eth_accept_wire_any_mode.
+
+Theorem C07_eth_timeout_height_zero : forall tbl m e max_memo height w,
+  accepted tbl m e (abstract max_memo height w) = true -> existsb is_eth (w_msgs w) = true ->
+  forall t, 0 < t < 2 ^ 64 -> v_timeout (w_vals w) <> t.
+Proof. exact eth_timeout_value_zero. Qed.
+Print Assumptions C07_eth_timeout_height_zero.
 
 (* The shape statement WITHOUT the hypothesis is false of the faithful model in re-check mode: *)
 Definition C07_recheck_shape_full : Prop := forall tbl e sh,
@@ -147,6 +181,28 @@ Proof. exact ica_safe_if_not_allowed. Qed.
 Print Assumptions C07_ica_route_partial.
 
 (* ---- non-vacuity: the hypotheses are met by concrete shapes, and the model both accepts and rejects *)
+Definition wvals0 : wvals :=
+  {| v_sigs := []; v_infos := []; v_payer := 0; v_granter := 0; v_memo := 0; v_timeout := 0; v_fee := [(0%N, 21000)]; v_gas := 21000 |}.
+Definition wire_canonical : wire := {| w_msgs := [MEth eth0]; w_ext := [XEth]; w_noncrit := []; w_vals := wvals0 |}.
+Definition wire_with (v : wvals) : wire := {| w_msgs := [MEth eth0]; w_ext := [XEth]; w_noncrit := []; w_vals := v |}.
+
+Example C07_example_wire_values :
+  abstract 256 100 wire_canonical = eth_canonical /\
+  accepted default_disabled MDeliver env0 (abstract 256 100 wire_canonical) = true /\
+  (* timeout heights around the current height and around 2^63 *)
+  forallb (fun t => negb (accepted default_disabled MDeliver env0 (abstract 256 100 (wire_with
+     {| v_sigs := []; v_infos := []; v_payer := 0; v_granter := 0; v_memo := 0; v_timeout := t; v_fee := [(0%N, 21000)]; v_gas := 21000 |}))))
+     [1; 99; 100; 101; 2 ^ 31; 2 ^ 32; 2 ^ 63 - 1; 2 ^ 63; 2 ^ 64 - 1] = true /\
+  (* one signature entry of zero bytes; a memo of one byte *)
+  accepted default_disabled MDeliver env0 (abstract 256 100 (wire_with
+     {| v_sigs := [0]; v_infos := []; v_payer := 0; v_granter := 0; v_memo := 0; v_timeout := 0; v_fee := [(0%N, 21000)]; v_gas := 21000 |})) = false /\
+  accepted default_disabled MReCheck env0 (abstract 256 100 (wire_with
+     {| v_sigs := []; v_infos := []; v_payer := 0; v_granter := 0; v_memo := 1; v_timeout := 0; v_fee := [(0%N, 21000)]; v_gas := 21000 |})) = false /\
+  (* the right amount under another denomination id *)
+  accepted default_disabled MCheck env0 (abstract 256 100 (wire_with
+     {| v_sigs := []; v_infos := []; v_payer := 0; v_granter := 0; v_memo := 0; v_timeout := 0; v_fee := [(2%N, 21000)]; v_gas := 21000 |})) = false.
+Proof. vm_compute. repeat split. Qed.
+
 Definition send : msg := MOther 0.
 Definition cosmos_sh (l : list msg) : shape :=
   {| msgs := l; ext_opts := []; noncrit := []; n_sigs := 1; n_infos := 1; payer := false; granter := false;
